@@ -1411,14 +1411,16 @@ def policy_scenarios(rng, thorough=False):
     S = []
     for fl in (0, 1, 2, 4, 8, 2 + 8, 2 + 4, 2 + 16, 16, 1 + 16, 2 + 64):
         for offer_tls in (False, True):
-            for mechs in (["PLAIN"], ["SCRAM-SHA-1", "PLAIN"], ["DIGEST-MD5", "PLAIN"], ["ANONYMOUS", "PLAIN"], ["EXTERNAL", "PLAIN"], []):
+            for mechs in (["PLAIN"], ["SCRAM-SHA-1", "PLAIN"], ["DIGEST-MD5", "PLAIN"], ["ANONYMOUS", "PLAIN"], ["EXTERNAL", "PLAIN"], [],
+                          ["PLAIN", "SCRAM-SHA-1"], ["PLAIN", "DIGEST-MD5", "SCRAM-SHA-256"]):
                 for answer in ("proceed", "tlsfail", "none", "verdictfail", "tlsnewfail"):
                     if not offer_tls and answer not in ("none",):
                         continue
                     chunks = [["h1"], [features(offer_tls, mechs)]]
                     verdicts, tlsnew = [], 1
                     if answer == "proceed":
-                        chunks += [[PROCEED], ["h1"], [features(False, ["PLAIN"] if rng.random() < .5 else mechs)]]
+                        post = rng.choice([["PLAIN"], mechs, mechs, ["SCRAM-SHA-256", "DIGEST-MD5"], ["PLAIN", "SCRAM-SHA-1"]])
+                        chunks += [[PROCEED], ["h1"], [features(False, post)]]
                     elif answer == "tlsfail":
                         chunks += [[simple("tls", "failure")], [features(False, mechs)]]
                     elif answer == "verdictfail":
@@ -1432,7 +1434,7 @@ def policy_scenarios(rng, thorough=False):
                     S.append(Scenario(ops, "policy:%d:%d:%s:%s" % (fl, offer_tls, "+".join(mechs), answer)))
     if not thorough:
         rng.shuffle(S)
-        S = S[:260]
+        S = S[:380]
     return S
 
 
